@@ -1,8 +1,1004 @@
-//! stub (to be implemented)
-#![allow(dead_code, unused_variables)]
-use crate::common::*;
+//! E2 `crash` — every crash point, loss pattern and single fault of a recorded history
+//! (DESIGN §5 E2). Serves C03 (process crash), C09 (power loss), C20 (single fault), C14 (E2 half).
+
+use std::collections::{BTreeMap, BTreeSet};
+use std::path::{Path, PathBuf};
+use std::time::Instant;
+
+use bitcask::storage::KeyValueStorage;
 use serde_json::{json, Value};
-pub fn worker(job: &Job) -> Shard { Shard::default() }
-pub fn replay(prop: &str, case: &Value) -> Vec<Violation> { vec![] }
-pub fn report_meta(prop: &str, tier: Tier) -> (String, Value, Vec<String>) { (String::new(), json!({}), vec![]) }
-pub fn child_recover(args: &[String]) -> i32 { 0 }
+
+use crate::common::*;
+use crate::e1::{self, b, key_bytes, show_word, val_bytes, word_from_json, word_json, Cfg, Exec, Op, Thr, NEVER_KEY};
+use crate::iohook::{self, Call, FaultKind};
+use crate::model::Kv;
+
+// ---------------------------------------------------------------------------------------------
+// running a piece of code in a forked child (an abort there is an observation, not the end)
+
+pub enum ChildOut {
+    Ok(Vec<u8>),
+    Died(String),
+    Timeout,
+}
+
+pub fn in_child(f: impl FnOnce() -> Vec<u8>, timeout_ms: i32) -> ChildOut {
+    unsafe {
+        let mut fds = [0i32; 2];
+        if libc::pipe(fds.as_mut_ptr()) != 0 {
+            return ChildOut::Died("pipe failed".into());
+        }
+        let pid = libc::fork();
+        if pid < 0 {
+            return ChildOut::Died("fork failed".into());
+        }
+        if pid == 0 {
+            libc::close(fds[0]);
+            std::panic::set_hook(Box::new(|_| {}));
+            let out = std::panic::catch_unwind(std::panic::AssertUnwindSafe(f)).unwrap_or_else(|_| b"{\"harness_panic\":true}".to_vec());
+            let mut off = 0;
+            while off < out.len() {
+                let r = libc::syscall(libc::SYS_write, fds[1], out.as_ptr().add(off), out.len() - off) as isize;
+                if r <= 0 {
+                    break;
+                }
+                off += r as usize;
+            }
+            libc::_exit(0);
+        }
+        libc::close(fds[1]);
+        let mut out = vec![];
+        let mut buf = [0u8; 65536];
+        let t0 = Instant::now();
+        let mut timed_out = false;
+        loop {
+            let left = timeout_ms as i64 - t0.elapsed().as_millis() as i64;
+            if left <= 0 {
+                timed_out = true;
+                break;
+            }
+            let mut p = libc::pollfd { fd: fds[0], events: libc::POLLIN, revents: 0 };
+            let r = libc::poll(&mut p, 1, left.min(1000) as i32);
+            if r > 0 {
+                let n = libc::read(fds[0], buf.as_mut_ptr() as *mut libc::c_void, buf.len());
+                if n <= 0 {
+                    break;
+                }
+                out.extend_from_slice(&buf[..n as usize]);
+            }
+        }
+        libc::close(fds[0]);
+        let mut st = 0i32;
+        if timed_out {
+            libc::kill(pid, libc::SIGKILL);
+            libc::waitpid(pid, &mut st, 0);
+            return ChildOut::Timeout;
+        }
+        libc::waitpid(pid, &mut st, 0);
+        if libc::WIFEXITED(st) && libc::WEXITSTATUS(st) == 0 {
+            ChildOut::Ok(out)
+        } else if libc::WIFSIGNALED(st) {
+            ChildOut::Died(format!("killed by signal {}", libc::WTERMSIG(st)))
+        } else {
+            ChildOut::Died(format!("exit status {}", libc::WEXITSTATUS(st)))
+        }
+    }
+}
+
+// ---------------------------------------------------------------------------------------------
+// recording a workload
+
+pub const KEYS: [u8; 3] = [0, 1, NEVER_KEY];
+
+#[derive(Clone, Debug)]
+pub struct Recorded {
+    pub log: Vec<Call>,
+    /// per operation: "ok" | "ok:true" | "err:<msg>" | "panic:<msg>"
+    pub results: Vec<String>,
+    /// reads after every operation (in-process), per key
+    pub reads: Vec<Vec<Result<Option<Vec<u8>>, String>>>,
+    /// whether the armed fault fired, and during which operation
+    pub fault_op: Option<usize>,
+    pub live_dir: BTreeMap<String, Vec<u8>>,
+    pub open_failed: Option<String>,
+}
+
+fn classify_ret(s: &str) -> String {
+    // s is the Debug rendering produced by Exec::step: Ok(Ok(..)) / Ok(Err("..")) / Err("PANIC: ..")
+    if s.starts_with("Ok(Ok(") {
+        format!("ok:{}", s.trim_start_matches("Ok(Ok(").trim_end_matches("))"))
+    } else if s.starts_with("Ok(Err(") {
+        format!("err:{}", s.trim_start_matches("Ok(Err(").trim_end_matches("))"))
+    } else {
+        format!("panic:{}", s)
+    }
+}
+
+/// Run `word` on a fresh store in `dir` with the recorder on. `fault` = (n-th mutating call after
+/// the initial open, kind).
+pub fn record(cfg: Cfg, word: &[Op], dir: &Path, fault: Option<(usize, FaultKind)>) -> Recorded {
+    let word = word.to_vec();
+    let dir = dir.to_path_buf();
+    std::thread::spawn(move || {
+        iohook::set_seed(Some(cfg.seed));
+        rmrf(&dir);
+        std::fs::create_dir_all(&dir).unwrap();
+        iohook::rec_start(&dir.to_string_lossy());
+        let mut rec = Recorded { log: vec![], results: vec![], reads: vec![], fault_op: None, live_dir: BTreeMap::new(), open_failed: None };
+        let mut e = match Exec::open(&dir, cfg) {
+            Ok(e) => e,
+            Err(m) => {
+                rec.open_failed = Some(m);
+                rec.log = iohook::rec_stop();
+                return rec;
+            }
+        };
+        if let Some((n, k)) = fault {
+            iohook::rec_arm_fault(n, k);
+        } else {
+            iohook::rec_reset_count();
+        }
+        for (i, op) in word.iter().enumerate() {
+            iohook::rec_mark(format!("begin:{}", i));
+            let fired_before = iohook::rec_fault_fired();
+            let (got, _want) = e.step(*op);
+            let r = classify_ret(&got);
+            if !fired_before && iohook::rec_fault_fired() {
+                rec.fault_op = Some(i);
+            }
+            if r.starts_with("ok") {
+                iohook::rec_mark(format!("ack:{}", i));
+            }
+            rec.results.push(r);
+            if e.h.is_none() {
+                // a failed reopen: the directory must still open (fault-free now)
+                if e.reopen().is_err() {
+                    rec.reads.push(vec![]);
+                    break;
+                }
+            }
+            rec.reads.push(KEYS.iter().map(|&k| e.get(k)).collect());
+        }
+        e.close();
+        rec.live_dir = list_dir(&dir);
+        rec.log = iohook::rec_stop();
+        iohook::set_seed(None);
+        rec
+    })
+    .join()
+    .expect("record thread")
+}
+
+/// Run a *faulted* recording in a forked child: a fault can leave the store in a state in which
+/// an in-process reopen aborts the process. The child leaves the directory behind on tmpfs; only
+/// results and reads travel through the pipe.
+pub fn record_in_child(cfg: Cfg, word: &[Op], dir: &Path, fault: Option<(usize, FaultKind)>) -> Result<Recorded, String> {
+    let w2 = word.to_vec();
+    let d2 = dir.to_path_buf();
+    let out = in_child(
+        move || {
+            let r = record(cfg, &w2, &d2, fault);
+            let enc = |r: &Result<Option<Vec<u8>>, String>| match r {
+                Ok(Some(v)) => json!({"v": v}),
+                Ok(None) => json!({"n": 1}),
+                Err(e) => json!({"e": e}),
+            };
+            serde_json::to_vec(&json!({
+                "results": r.results,
+                "reads": r.reads.iter().map(|rd| rd.iter().map(enc).collect::<Vec<_>>()).collect::<Vec<_>>(),
+                "fault_op": r.fault_op,
+                "open_failed": r.open_failed,
+            }))
+            .unwrap()
+        },
+        15_000,
+    );
+    match out {
+        ChildOut::Ok(bytes) => {
+            let v: Value = serde_json::from_slice(&bytes).map_err(|e| format!("child output unreadable: {}", e))?;
+            let dec = |x: &Value| -> Result<Option<Vec<u8>>, String> {
+                if let Some(a) = x["v"].as_array() {
+                    Ok(Some(a.iter().map(|b| b.as_u64().unwrap() as u8).collect()))
+                } else if x["n"].is_number() {
+                    Ok(None)
+                } else {
+                    Err(x["e"].as_str().unwrap_or("?").to_string())
+                }
+            };
+            Ok(Recorded {
+                log: vec![],
+                results: v["results"].as_array().map(|a| a.iter().map(|x| x.as_str().unwrap_or("").to_string()).collect()).unwrap_or_default(),
+                reads: v["reads"].as_array().map(|a| a.iter().map(|rd| rd.as_array().unwrap().iter().map(dec).collect()).collect()).unwrap_or_default(),
+                fault_op: v["fault_op"].as_u64().map(|x| x as usize),
+                live_dir: list_dir(dir),
+                open_failed: v["open_failed"].as_str().map(|s| s.to_string()),
+            })
+        }
+        ChildOut::Died(how) => Err(format!("process died while running the workload: {}", how)),
+        ChildOut::Timeout => Err("the workload did not finish within 15 s (hang)".into()),
+    }
+}
+
+// ---------------------------------------------------------------------------------------------
+// materialising a prefix of the calls
+
+/// Directory contents produced by exactly the calls in `calls` (markers ignored), each file cut to
+/// `cut[file]` bytes if present.
+pub fn materialize(calls: &[Call], cut: &BTreeMap<String, usize>) -> BTreeMap<String, Vec<u8>> {
+    let mut files: BTreeMap<String, Vec<u8>> = BTreeMap::new();
+    for c in calls {
+        match c {
+            Call::Create { path, .. } => {
+                files.insert(path.clone(), vec![]);
+            }
+            Call::Write { path, data } => {
+                if let Some(f) = files.get_mut(path) {
+                    f.extend_from_slice(data);
+                }
+            }
+            Call::Unlink { path } => {
+                files.remove(path);
+            }
+            _ => {}
+        }
+    }
+    for (p, l) in cut {
+        if let Some(f) = files.get_mut(p) {
+            f.truncate(*l);
+        }
+    }
+    files
+}
+
+pub fn write_dir(dir: &Path, files: &BTreeMap<String, Vec<u8>>) {
+    rmrf(dir);
+    std::fs::create_dir_all(dir).unwrap();
+    for (n, bts) in files {
+        std::fs::write(dir.join(n), bts).unwrap();
+    }
+}
+
+// ---------------------------------------------------------------------------------------------
+// recovery judge (runs in a forked child)
+
+#[derive(Debug, Clone)]
+pub struct Recovery {
+    /// reads after the first and after a second recovery (a crash right after recovery's own create)
+    pub reads: Vec<Vec<Result<Option<Vec<u8>>, String>>>,
+    pub error: Option<String>,
+    pub trace_violations: Vec<(String, String)>,
+}
+
+fn recover_in_child(dir: &Path, cfg: Cfg, max_id_ever: Option<u64>, rounds: usize) -> Result<Recovery, String> {
+    let dir2 = dir.to_path_buf();
+    let out = in_child(
+        move || {
+            iohook::set_seed(Some(cfg.seed.wrapping_add(1000)));
+            iohook::rec_start(&dir2.to_string_lossy());
+            let mut reads = vec![];
+            let mut error: Option<String> = None;
+            for round in 0..rounds {
+                iohook::rec_mark(format!("incarnation:{}", round + 1));
+                let c = cfg.build(&dir2);
+                let r = std::panic::catch_unwind(std::panic::AssertUnwindSafe(|| -> Result<Vec<Result<Option<Vec<u8>>, String>>, String> {
+                    let kv = c.open().map_err(|e| format!("open: {}", e))?;
+                    let h = kv.get_handle();
+                    let mut panicked = false;
+                    Ok(KEYS
+                        .iter()
+                        .map(|&k| {
+                            if panicked || h.verif_pool().0 == 0 {
+                                // a panicking get loses its pooled reader; with one reader the next get would spin forever
+                                return Err("skipped after a PANIC in get".to_string());
+                            }
+                            match std::panic::catch_unwind(std::panic::AssertUnwindSafe(|| h.get(b(key_bytes(k))))) {
+                                Ok(Ok(v)) => Ok(v.map(|x| x.to_vec())),
+                                Ok(Err(e)) => Err(format!("Err: {}", e)),
+                                Err(_) => {
+                                    panicked = true;
+                                    Err("PANIC in get".to_string())
+                                }
+                            }
+                        })
+                        .collect())
+                }));
+                match r {
+                    Ok(Ok(rd)) => reads.push(rd),
+                    Ok(Err(e)) => {
+                        error = Some(e);
+                        break;
+                    }
+                    Err(_) => {
+                        error = Some("PANIC in open".into());
+                        break;
+                    }
+                }
+            }
+            let log = iohook::rec_stop();
+            let mut tv = vec![];
+            e1::check_trace_invariants(&log, max_id_ever, &mut tv);
+            // recovery never rewrites existing files: its only mutating calls are creations
+            for c in &log {
+                if matches!(c, Call::Write { .. } | Call::Unlink { .. }) {
+                    tv.push(("C14:recovery-mutated-existing-files".to_string(), c.short(), None));
+                }
+            }
+            let enc = |r: &Result<Option<Vec<u8>>, String>| match r {
+                Ok(Some(v)) => json!({"v": v}),
+                Ok(None) => json!({"n": 1}),
+                Err(e) => json!({"e": e}),
+            };
+            serde_json::to_vec(&json!({
+                "reads": reads.iter().map(|rd| rd.iter().map(enc).collect::<Vec<_>>()).collect::<Vec<_>>(),
+                "error": error,
+                "tv": tv.iter().map(|(c, m, _)| json!([c, m])).collect::<Vec<_>>(),
+            }))
+            .unwrap()
+        },
+        8_000,
+    );
+    match out {
+        ChildOut::Ok(bytes) => {
+            let v: Value = serde_json::from_slice(&bytes).map_err(|e| format!("child output unreadable: {} ({} bytes)", e, bytes.len()))?;
+            let dec = |x: &Value| -> Result<Option<Vec<u8>>, String> {
+                if let Some(a) = x["v"].as_array() {
+                    Ok(Some(a.iter().map(|b| b.as_u64().unwrap() as u8).collect()))
+                } else if x["n"].is_number() {
+                    Ok(None)
+                } else {
+                    Err(x["e"].as_str().unwrap_or("?").to_string())
+                }
+            };
+            Ok(Recovery {
+                reads: v["reads"].as_array().map(|a| a.iter().map(|rd| rd.as_array().unwrap().iter().map(dec).collect()).collect()).unwrap_or_default(),
+                error: v["error"].as_str().map(|s| s.to_string()),
+                trace_violations: v["tv"].as_array().map(|a| a.iter().map(|x| (x[0].as_str().unwrap().to_string(), x[1].as_str().unwrap().to_string())).collect()).unwrap_or_default(),
+            })
+        }
+        ChildOut::Died(how) => Err(format!("process died during recovery: {}", how)),
+        ChildOut::Timeout => Err("recovery or the reads after it did not finish within 8 s (hang)".into()),
+    }
+}
+
+// ---------------------------------------------------------------------------------------------
+// models of acknowledged operations
+
+fn apply(m: &mut Kv, op: Op) {
+    match op {
+        Op::Set(k, v) => {
+            m.insert(key_bytes(k), val_bytes(v));
+        }
+        Op::Del(k) => {
+            m.remove(&key_bytes(k));
+        }
+        _ => {}
+    }
+}
+fn op_key(op: Op) -> Option<Vec<u8>> {
+    match op {
+        Op::Set(k, _) | Op::Del(k) => Some(key_bytes(k)),
+        _ => None,
+    }
+}
+
+/// (model of acked ops, in-flight op) at log position `upto` (exclusive).
+fn model_at(log: &[Call], upto: usize, word: &[Op]) -> (Kv, Option<Op>) {
+    let mut m = Kv::new();
+    let mut begun: Option<usize> = None;
+    for c in &log[..upto] {
+        if let Call::Mark(s) = c {
+            if let Some(i) = s.strip_prefix("begin:") {
+                begun = i.parse().ok();
+            } else if let Some(i) = s.strip_prefix("ack:") {
+                let i: usize = i.parse().unwrap();
+                apply(&mut m, word[i]);
+                begun = None;
+            }
+        }
+    }
+    (m, begun.map(|i| word[i]))
+}
+
+/// Judge the reads of a recovered store against "acked model, in-flight applied or not".
+fn judge_reads(reads: &[Result<Option<Vec<u8>>, String>], acked: &Kv, inflight: &[Op]) -> Option<(String, String)> {
+    for (i, &k) in KEYS.iter().enumerate() {
+        let kb = key_bytes(k);
+        let want = acked.get(&kb).cloned();
+        let mut alts: Vec<Option<Vec<u8>>> = vec![want.clone()];
+        // in-flight / failed operations on this key may have taken effect: any subsequence order is
+        // not needed because at most one operation is in flight
+        for op in inflight {
+            if op_key(*op).as_ref() == Some(&kb) {
+                let mut m2 = acked.clone();
+                apply(&mut m2, *op);
+                alts.push(m2.get(&kb).cloned());
+            }
+        }
+        match &reads[i] {
+            Ok(got) => {
+                if !alts.contains(got) {
+                    let class = match (got, &want) {
+                        (Some(_), None) => "read-resurrected",
+                        (None, Some(_)) => "acknowledged-write-lost",
+                        _ => "read-wrong-value",
+                    };
+                    return Some((class.into(), format!("get({}) = {:?}, acceptable: {:?}", hex(&kb), got.as_ref().map(|v| hex(v)), alts.iter().map(|a| a.as_ref().map(|v| hex(v))).collect::<Vec<_>>())));
+                }
+            }
+            Err(e) if e.contains("HANG") => return Some(("get-hangs-reader-lost".into(), format!("get({}) -> {}", hex(&kb), e))),
+            Err(e) if e.contains("PANIC") => return Some(("get-panics-after-recovery".into(), format!("get({}) -> {}", hex(&kb), e))),
+            Err(e) => return Some(("get-fails-after-recovery".into(), format!("get({}) -> {}", hex(&kb), e))),
+        }
+    }
+    None
+}
+
+// ---------------------------------------------------------------------------------------------
+// plans
+
+pub struct Plan {
+    pub alphabet: Vec<Op>,
+    pub depth: usize,
+    pub cfgs: Vec<Cfg>,
+}
+
+fn alphabet_full() -> Vec<Op> {
+    vec![Op::Set(0, 0), Op::Set(0, 1), Op::Set(1, 0), Op::Set(1, 4), Op::Del(0), Op::Merge, Op::Reopen]
+}
+
+pub fn plan(mode: &str, tier: Tier) -> Plan {
+    let mut cfgs = vec![];
+    let sync = mode == "power";
+    for mfs in [0u64, 60] {
+        for thr in [Thr::All, Thr::Size27] {
+            let mut c = Cfg::new(mfs, thr, 1);
+            c.sync_always = sync;
+            cfgs.push(c);
+        }
+    }
+    if tier == Tier::Thorough {
+        for thr in [Thr::Dead, Thr::All] {
+            let mut c = Cfg::new(if thr == Thr::All { e1::MFS_BIG } else { 60 }, thr, 2);
+            c.sync_always = sync;
+            cfgs.push(c);
+        }
+    }
+    let depth = match mode {
+        "crash" => tier.pick(4, 5),
+        "power" => tier.pick(3, 4),
+        "fault" => tier.pick(3, 4),
+        "c14" => tier.pick(3, 4),
+        _ => 3,
+    };
+    Plan { alphabet: alphabet_full(), depth, cfgs }
+}
+
+fn words_upto(alpha: &[Op], depth: usize) -> Vec<Vec<Op>> {
+    let mut out: Vec<Vec<Op>> = vec![vec![]];
+    let mut frontier: Vec<Vec<Op>> = vec![vec![]];
+    for _ in 0..depth {
+        let mut next = vec![];
+        for w in &frontier {
+            for a in alpha {
+                let mut w2 = w.clone();
+                w2.push(*a);
+                next.push(w2);
+            }
+        }
+        out.extend(next.iter().cloned());
+        frontier = next;
+    }
+    out
+}
+
+fn case_json(mode: &str, cfg: &Cfg, word: &[Op], extra: Value) -> Value {
+    json!({"engine": "crash", "mode": mode, "cfg": cfg.to_json(), "word": word_json(word), "word_text": show_word(word), "at": extra})
+}
+
+// ---------------------------------------------------------------------------------------------
+// the three enumerations
+
+struct Ctx<'a> {
+    sh: &'a mut Shard,
+    prop: &'a str,
+    live: PathBuf,
+    rdir: PathBuf,
+}
+
+fn max_id_in(calls: &[Call]) -> Option<u64> {
+    calls.iter().filter_map(|c| if let Call::Create { path, .. } = c { parse_name(path).map(|x| x.0) } else { None }).max()
+}
+
+/// Crash points of the last operation of `word` (or of the initial open for the empty word):
+/// log positions `upto` such that exactly the calls before `upto` have happened.
+fn crash_positions(log: &[Call], word: &[Op]) -> Vec<usize> {
+    let start = if word.is_empty() {
+        0
+    } else {
+        let tag = format!("begin:{}", word.len() - 1);
+        log.iter().position(|c| matches!(c, Call::Mark(m) if *m == tag)).unwrap_or(0)
+    };
+    let mut v: Vec<usize> = (start..log.len()).filter(|&i| log[i].is_mutating()).collect();
+    // and "after everything"
+    v.push(log.len());
+    // the position of the first mutating call of this op means "before it": that state equals the
+    // final state of the shorter word (already covered) except for the begin marker: keep it, it is
+    // the state "operation started, nothing written"
+    v
+}
+
+fn validate_materializer(cx: &mut Ctx, rec: &Recorded, cfg: &Cfg, word: &[Op]) -> bool {
+    let full = materialize(&rec.log, &BTreeMap::new());
+    if full != rec.live_dir {
+        let f = |m: &BTreeMap<String, Vec<u8>>| m.iter().map(|(k, v)| (k.clone(), v.len())).collect::<Vec<_>>();
+        cx.sh.machinery_errors.push(format!("materialiser mismatch for {} under {:?}: live {:?} vs rebuilt {:?}", show_word(word), cfg, f(&rec.live_dir), f(&full)));
+        return false;
+    }
+    true
+}
+
+fn run_crash(cx: &mut Ctx, cfg: Cfg, word: &[Op], power: bool, byte_granular: bool) {
+    let rec = record(cfg, word, &cx.live, None);
+    cx.sh.transitions += word.len() as u64;
+    if let Some(m) = &rec.open_failed {
+        cx.sh.violate(Violation { class: format!("{}:workload-open-failed", cx.prop), msg: m.clone(), case: case_json("crash", &cfg, word, json!(null)) });
+        return;
+    }
+    if let Some(i) = rec.results.iter().position(|r| !r.starts_with("ok")) {
+        cx.sh.violate(Violation { class: format!("{}:workload-op-failed-without-any-fault", cx.prop), msg: format!("{} -> {} in {} under {:?}", word[i].show(), rec.results[i], show_word(word), cfg), case: case_json("crash", &cfg, word, json!({"op": i})) });
+        return;
+    }
+    if !validate_materializer(cx, &rec, &cfg, word) {
+        return;
+    }
+    let mode = if power { "power" } else { "crash" };
+    for upto in crash_positions(&rec.log, word) {
+        let pre = &rec.log[..upto];
+        let (acked, inflight) = model_at(&rec.log, upto, word);
+        let infl: Vec<Op> = inflight.into_iter().collect();
+        let mut cuts: Vec<BTreeMap<String, usize>> = vec![BTreeMap::new()];
+        if power {
+            // per file: durable length between its synced length and its current length
+            let mut len: BTreeMap<String, usize> = BTreeMap::new();
+            let mut synced: BTreeMap<String, usize> = BTreeMap::new();
+            let mut bounds: BTreeMap<String, Vec<usize>> = BTreeMap::new();
+            for c in pre {
+                match c {
+                    Call::Create { path, .. } => {
+                        len.insert(path.clone(), 0);
+                        synced.insert(path.clone(), 0);
+                        bounds.insert(path.clone(), vec![0]);
+                    }
+                    Call::Write { path, data } => {
+                        if let Some(l) = len.get_mut(path) {
+                            *l += data.len();
+                            bounds.get_mut(path).unwrap().push(*l);
+                        }
+                    }
+                    Call::Fsync { path } => {
+                        if let Some(l) = len.get(path) {
+                            synced.insert(path.clone(), *l);
+                        }
+                    }
+                    Call::Unlink { path } => {
+                        len.remove(path);
+                        synced.remove(path);
+                        bounds.remove(path);
+                    }
+                    _ => {}
+                }
+            }
+            for (p, bs) in &bounds {
+                let s = synced[p];
+                let l = len[p];
+                let mut opts: BTreeSet<usize> = bs.iter().cloned().filter(|&x| x >= s).collect();
+                opts.insert(s);
+                opts.insert(l);
+                if byte_granular && l - s <= 64 {
+                    opts.extend(s..=l);
+                } else if byte_granular {
+                    // long tails: every byte of the first and last 40, plus write boundaries
+                    opts.extend(s..=(s + 40).min(l));
+                    opts.extend(l.saturating_sub(40).max(s)..=l);
+                }
+                if opts.len() > 1 {
+                    let mut next = vec![];
+                    for c in &cuts {
+                        for &o in &opts {
+                            let mut c2 = c.clone();
+                            if o != l {
+                                c2.insert(p.clone(), o);
+                            }
+                            next.push(c2);
+                        }
+                    }
+                    cuts = next;
+                    if cuts.len() > 20_000 {
+                        cx.sh.notes.insert("loss-vector product capped at 20 000 per crash point".into());
+                        cuts.truncate(20_000);
+                        cx.sh.capped = true;
+                    }
+                }
+            }
+        }
+        let max_id = max_id_in(pre);
+        for cut in &cuts {
+            let files = materialize(pre, cut);
+            write_dir(&cx.rdir, &files);
+            cx.sh.evaluations += 1;
+            let mut fp = format!("{:?}|", cfg).into_bytes();
+            for (n, bts) in &files {
+                fp.extend_from_slice(n.as_bytes());
+                fp.extend_from_slice(&fnv(&strip_tstamps(n, bts)).to_le_bytes());
+            }
+            let fph = fnv(&fp);
+            cx.sh.states.insert(fph);
+            if !infl.is_empty() || !cut.is_empty() {
+                cx.sh.nontrivial.insert(fph);
+            }
+            let at = json!({"upto": upto, "after_call": pre.iter().rev().find(|c| c.is_mutating()).map(|c| c.short()), "cut": cut});
+            let r = recover_in_child(&cx.rdir, cfg, max_id, 2);
+            let verdict: Option<(String, String)> = match &r {
+                Err(e) => Some((if e.contains("hang") { "recovery-hangs".into() } else { "recovery-aborts-the-process".into() }, e.clone())),
+                Ok(rv) => {
+                    if let Some(e) = &rv.error {
+                        Some((if e.contains("PANIC") { "recovery-panics".into() } else { "directory-cannot-be-opened".into() }, e.clone()))
+                    } else {
+                        let mut v = None;
+                        for (round, rd) in rv.reads.iter().enumerate() {
+                            if let Some((c, m)) = judge_reads(rd, &acked, &infl) {
+                                v = Some((c, format!("{} (recovery round {})", m, round + 1)));
+                                break;
+                            }
+                        }
+                        v
+                    }
+                }
+            };
+            let outcome = match (&verdict, &r) {
+                (Some((c, _)), _) => c.clone(),
+                (None, Ok(rv)) => format!("ok:{}", rv.reads.first().map(|rd| rd.iter().map(|x| match x { Ok(Some(v)) => hex(v), Ok(None) => "nil".into(), Err(_) => "err".into() }).collect::<Vec<_>>().join(",")).unwrap_or_default()),
+                _ => "?".into(),
+            };
+            cx.sh.outcome(outcome);
+            if let Some((class, msg)) = verdict {
+                let class = classify_crash(&class, pre, cut, power);
+                cx.sh.violate(Violation { class: format!("{}:{}", cx.prop, class), msg: format!("{} | {} of {} under {:?} | crash {}", msg, mode, show_word(word), cfg, at), case: case_json(mode, &cfg, word, at.clone()) });
+            }
+            if cx.prop == "C14" {
+                if let Ok(rv) = &r {
+                    for (c, m) in &rv.trace_violations {
+                        cx.sh.violate(Violation { class: c.clone(), msg: format!("{} | recovery of crash {} of {} under {:?}", m, at, show_word(word), cfg), case: case_json(mode, &cfg, word, at.clone()) });
+                    }
+                }
+            }
+        }
+    }
+    if cx.sh.samples.len() < 2 {
+        cx.sh.samples.push(json!({"cfg": cfg.to_json(), "word": show_word(word), "calls": rec.log.iter().map(|c| c.short()).collect::<Vec<_>>()}));
+    }
+}
+
+/// Drop the i64 timestamps so that fingerprints of directories do not depend on wall-clock time.
+fn strip_tstamps(name: &str, bytes: &[u8]) -> Vec<u8> {
+    let mut out = bytes.to_vec();
+    if name.ends_with(".data") {
+        let (ents, _) = crate::model::decode_data(bytes);
+        for e in ents {
+            for x in &mut out[e.pos as usize..e.pos as usize + 8] {
+                *x = 0;
+            }
+        }
+    } else if name.ends_with(".hint") {
+        // hint entries: tstamp at the start of each record; records are 32 + klen bytes
+        let (ents, _) = crate::model::decode_hint(bytes);
+        let mut p = 0usize;
+        for e in ents {
+            for x in &mut out[p..p + 8] {
+                *x = 0;
+            }
+            p += 32 + e.key.len();
+        }
+    }
+    out
+}
+
+/// Root-cause classes for crash / power violations (matched against known_findings.json).
+fn classify_crash(class: &str, pre: &[Call], cut: &BTreeMap<String, usize>, power: bool) -> String {
+    if !power {
+        return class.to_string();
+    }
+    // power loss: did a hint file keep records whose data file lost bytes?
+    let files_full = materialize(pre, &BTreeMap::new());
+    let files_cut = materialize(pre, cut);
+    let mut hint_beyond_data = false;
+    for (n, bts) in &files_cut {
+        if let Some((id, false)) = parse_name(n) {
+            let dlen = files_cut.get(&format!("{}.bitcask.data", id)).map(|d| d.len()).unwrap_or(0) as u64;
+            let (ents, _) = crate::model::decode_hint(bts);
+            if ents.iter().any(|e| e.pos + e.len > dlen) {
+                hint_beyond_data = true;
+            }
+        }
+    }
+    let lost_merge_output = cut.iter().any(|(f, l)| files_full.get(f).map_or(false, |full| *l < full.len()) && files_full.contains_key(&f.replace(".data", ".hint")) && f.ends_with(".data"));
+    if hint_beyond_data {
+        format!("{}[hint-record-beyond-end-of-data-file]", class)
+    } else if lost_merge_output {
+        format!("{}[merge-output-lost-after-sources-unlinked]", class)
+    } else {
+        class.to_string()
+    }
+}
+
+fn run_fault(cx: &mut Ctx, cfg: Cfg, word: &[Op], last_op_only: bool) {
+    let base = record(cfg, word, &cx.live, None);
+    cx.sh.transitions += word.len() as u64;
+    if base.open_failed.is_some() || base.results.iter().any(|r| !r.starts_with("ok")) {
+        cx.sh.violate(Violation { class: format!("{}:workload-op-failed-without-any-fault", cx.prop), msg: format!("{:?} in {} under {:?}", base.results, show_word(word), cfg), case: case_json("fault", &cfg, word, json!(null)) });
+        return;
+    }
+    // positions: mutating calls after the initial open
+    let first_begin = base.log.iter().position(|c| matches!(c, Call::Mark(m) if m == "begin:0")).unwrap_or(0);
+    let last_begin = {
+        let tag = format!("begin:{}", word.len().saturating_sub(1));
+        base.log.iter().position(|c| matches!(c, Call::Mark(m) if *m == tag)).unwrap_or(0)
+    };
+    let mut n = 0usize;
+    let mut positions: Vec<(usize, Call)> = vec![];
+    for (i, c) in base.log.iter().enumerate().skip(first_begin) {
+        if c.is_mutating() {
+            n += 1;
+            if !last_op_only || i >= last_begin {
+                positions.push((n, c.clone()));
+            }
+        }
+    }
+    for (pos, call) in positions {
+        let mut kinds: Vec<FaultKind> = vec![FaultKind::Errno(libc::EIO)];
+        match &call {
+            Call::Write { data, .. } => {
+                kinds.push(FaultKind::Errno(libc::ENOSPC));
+                if data.len() > 1 {
+                    if data.len() <= 64 {
+                        for k in [1, data.len() / 2, data.len() - 1] {
+                            if !kinds.contains(&FaultKind::Short(k)) {
+                                kinds.push(FaultKind::Short(k));
+                            }
+                        }
+                    } else {
+                        kinds.push(FaultKind::Short(data.len() / 2));
+                    }
+                }
+            }
+            Call::Create { .. } => kinds.push(FaultKind::Errno(libc::ENOSPC)),
+            _ => {}
+        }
+        for kind in kinds {
+            cx.sh.evaluations += 1;
+            let at = json!({"fault_at_mutating_call": pos, "call": call.short(), "kind": format!("{:?}", kind)});
+            let rec = match record_in_child(cfg, word, &cx.live, Some((pos, kind))) {
+                Ok(r) => r,
+                Err(e) => {
+                    let class = classify_fault(if e.contains("hang") { "workload-hangs-after-fault" } else { "process-aborts-after-fault" }, word, None, &call);
+                    cx.sh.violate(Violation { class: format!("{}:{}", cx.prop, class), msg: format!("{} | {} under {:?} | {}", e, show_word(word), cfg, at), case: case_json("fault", &cfg, word, at.clone()) });
+                    continue;
+                }
+            };
+            let mut verdicts: Vec<(String, String)> = vec![];
+            let fp = fnv(format!("{:?}|{:?}|{}|{:?}", cfg, word, pos, kind).as_bytes());
+            cx.sh.states.insert(fnv(format!("{:?}{:?}", rec.results, rec.live_dir.iter().map(|(k, v)| (k.clone(), fnv(&strip_tstamps(k, v)))).collect::<Vec<_>>()).as_bytes()));
+            cx.sh.nontrivial.insert(fp);
+            if let FaultKind::Short(_) = kind {
+                // benign deviation: must change nothing at all
+                if rec.results != base.results || rec.reads != base.reads {
+                    verdicts.push(("short-write-changed-behaviour".into(), format!("results {:?} vs {:?}", rec.results, base.results)));
+                }
+                let strip = |m: &BTreeMap<String, Vec<u8>>| m.iter().map(|(k, v)| (k.clone(), strip_tstamps(k, v))).collect::<BTreeMap<_, _>>();
+                if strip(&rec.live_dir) != strip(&base.live_dir) {
+                    verdicts.push(("short-write-changed-directory".into(), "directory differs from the fault-free run".into()));
+                }
+                cx.sh.outcome("short-write".into());
+            } else {
+                let fo = rec.fault_op;
+                match fo {
+                    None => {
+                        cx.sh.machinery_errors.push(format!("armed fault #{} never fired in {} under {:?}", pos, show_word(word), cfg));
+                        continue;
+                    }
+                    Some(fo) => {
+                        // the failed operation must report the failure
+                        if rec.results[fo].starts_with("ok") {
+                            verdicts.push(("fault-swallowed".into(), format!("{} returned {} although its {} failed", word[fo].show(), rec.results[fo], call.short())));
+                        }
+                        if let Some(i) = rec.results.iter().position(|r| r.starts_with("panic")) {
+                            verdicts.push(("panic".into(), format!("{} -> {}", word[i].show(), rec.results[i])));
+                        }
+                        // every other operation must succeed
+                        for (i, r) in rec.results.iter().enumerate() {
+                            if i != fo && !r.starts_with("ok") && !r.starts_with("panic") {
+                                verdicts.push(("later-fault-free-op-failed".into(), format!("{} (op {}) -> {} after a fault in op {} ({})", word[i].show(), i, r, fo, call.short())));
+                                break;
+                            }
+                        }
+                        // in-process reads after every op: model with the failed op applied or not
+                        let mut m = Kv::new();
+                        let mut maybe: Vec<Op> = vec![];
+                        for (i, op) in word.iter().enumerate() {
+                            if i >= rec.reads.len() {
+                                break;
+                            }
+                            if rec.results[i].starts_with("ok") {
+                                apply(&mut m, *op);
+                                // a later acknowledged op on the same key supersedes the failed one
+                                maybe.retain(|f| op_key(*f) != op_key(*op) || op_key(*op).is_none());
+                            } else {
+                                maybe.push(*op);
+                            }
+                            if let Op::Del(_) = op {
+                                // return value of a later delete may reflect the failed op either way: not judged here
+                            }
+                            if rec.reads[i].len() == KEYS.len() {
+                                if let Some((c, msg)) = judge_reads(&rec.reads[i], &m, &maybe) {
+                                    verdicts.push((format!("running-store-{}", c), format!("after op {} ({}): {}", i, word[i].show(), msg)));
+                                    break;
+                                }
+                            }
+                        }
+                        // after a restart
+                        if rec.reads.len() == word.len() {
+                            write_dir(&cx.rdir, &rec.live_dir);
+                            match recover_in_child(&cx.rdir, cfg, None, 1) {
+                                Err(e) => verdicts.push((if e.contains("hang") { "restart-hangs".into() } else { "restart-aborts-the-process".into() }, e)),
+                                Ok(rv) => {
+                                    if let Some(e) = rv.error {
+                                        verdicts.push((if e.contains("PANIC") { "restart-panics".into() } else { "directory-cannot-be-opened".into() }, e));
+                                    } else if let Some(rd) = rv.reads.first() {
+                                        if let Some((c, msg)) = judge_reads(rd, &m, &maybe) {
+                                            verdicts.push((format!("after-restart-{}", c), msg));
+                                        }
+                                    }
+                                }
+                            }
+                        } else {
+                            verdicts.push(("directory-cannot-be-opened".into(), "a failed reopen could not be retried".into()));
+                        }
+                        cx.sh.outcome(format!("{}:{}", call.short().split(' ').next().unwrap_or(""), rec.results.iter().map(|r| r.split(':').next().unwrap_or("")).collect::<Vec<_>>().join(",")));
+                    }
+                }
+            }
+            let mut seen = BTreeSet::new();
+            for (class, msg) in verdicts {
+                let class = classify_fault(&class, word, rec.fault_op, &call);
+                if seen.insert(class.clone()) {
+                    cx.sh.violate(Violation { class: format!("{}:{}", cx.prop, class), msg: format!("{} | {} under {:?} | {}", msg, show_word(word), cfg, at), case: case_json("fault", &cfg, word, at.clone()) });
+                }
+            }
+        }
+    }
+}
+
+/// Root-cause classes for single-fault violations.
+fn classify_fault(class: &str, word: &[Op], fault_op: Option<usize>, call: &Call) -> String {
+    let op = fault_op.map(|i| word[i]);
+    let what = match call {
+        Call::Create { .. } => "create",
+        Call::Write { .. } => "write",
+        Call::Fsync { .. } => "fsync",
+        Call::Unlink { .. } => "unlink",
+        _ => "?",
+    };
+    let opn = match op {
+        Some(Op::Merge) => "merge",
+        Some(Op::Reopen) => "reopen",
+        Some(Op::Set(_, 4)) | Some(Op::Set(_, 5)) => "big-set",
+        Some(Op::Set(..)) => "set",
+        Some(Op::Del(_)) => "del",
+        None => "?",
+    };
+    format!("{}[{}-failed-in-{}]", class, what, opn)
+}
+
+// ---------------------------------------------------------------------------------------------
+// worker / replay / meta
+
+pub fn worker(job: &Job) -> Shard {
+    let mut sh = Shard::default();
+    let t0 = Instant::now();
+    let mode = job.pass.split(':').nth(1).unwrap_or("crash").to_string();
+    let p = plan(&mode, job.tier);
+    let scratch = job.scratch();
+    let words = words_upto(&p.alphabet, p.depth);
+    let mut idx = 0usize;
+    let mut first = true;
+    {
+        let mut cx = Ctx { sh: &mut sh, prop: &job.prop, live: scratch.join("live"), rdir: scratch.join("rec") };
+        'outer: for cfg in &p.cfgs {
+            for w in &words {
+                idx += 1;
+                if idx % job.nshards != job.shard {
+                    continue;
+                }
+                if t0.elapsed().as_secs() > job.deadline_s {
+                    cx.sh.capped = true;
+                    cx.sh.notes.insert(format!("time cap hit after {} of {} workloads", idx, words.len() * p.cfgs.len()));
+                    break 'outer;
+                }
+                job.progress(&case_json(&mode, cfg, w, json!(null)));
+                if first && !w.is_empty() {
+                    // determinism self-check: two recordings of the same workload give the same calls
+                    let a = record(*cfg, w, &cx.live, None);
+                    let bb = record(*cfg, w, &cx.live, None);
+                    let sig = |r: &Recorded| r.log.iter().map(|c| match c { Call::Write { path, data } => format!("w {} {}", path, data.len()), o => o.short() }).collect::<Vec<_>>();
+                    if sig(&a) != sig(&bb) {
+                        cx.sh.machinery_errors.push(format!("recording of {} is not deterministic", show_word(w)));
+                    }
+                    first = false;
+                }
+                match mode.as_str() {
+                    "crash" | "c14" => run_crash(&mut cx, *cfg, w, false, false),
+                    "power" => run_crash(&mut cx, *cfg, w, true, job.tier == Tier::Thorough),
+                    "fault" => {
+                        if !w.is_empty() {
+                            run_fault(&mut cx, *cfg, w, w.len() < p.depth)
+                        }
+                    }
+                    m => panic!("unknown e2 mode {}", m),
+                }
+                cx.sh.count("workloads", 1);
+            }
+        }
+    }
+    rmrf(&scratch);
+    sh
+}
+
+pub fn replay(prop: &str, case: &Value) -> Vec<Violation> {
+    let cfg = Cfg::from_json(&case["cfg"]).expect("cfg");
+    let word = word_from_json(&case["word"]).expect("word");
+    let mode = case["mode"].as_str().unwrap_or("crash").to_string();
+    let scratch = PathBuf::from(format!("/dev/shm/vh-replay-{}", std::process::id()));
+    let mut sh = Shard::default();
+    {
+        let mut cx = Ctx { sh: &mut sh, prop, live: scratch.join("live"), rdir: scratch.join("rec") };
+        match mode.as_str() {
+            "crash" => run_crash(&mut cx, cfg, &word, false, false),
+            "power" => run_crash(&mut cx, cfg, &word, true, true),
+            "fault" => run_fault(&mut cx, cfg, &word, false),
+            _ => {}
+        }
+    }
+    rmrf(&scratch);
+    // report the violations at the recorded position first; a replay re-runs the whole workload
+    let want = &case["at"];
+    let mut v: Vec<Violation> = sh.violations;
+    v.sort_by_key(|x| if &x.case["at"] == want { 0 } else { 1 });
+    v
+}
+
+pub fn report_meta(prop: &str, tier: Tier) -> (String, Value, Vec<String>) {
+    let mode = match prop {
+        "C03" => "crash",
+        "C09" => "power",
+        "C20" => "fault",
+        _ => "c14",
+    };
+    let p = plan(mode, tier);
+    let nwords = words_upto(&p.alphabet, p.depth).len();
+    let rule = match mode {
+        "crash" | "c14" => format!("every workload word of length 0..={} over {:?} x {} configurations is executed on the real store with every mutating system call recorded; for every crash point inside the last operation of every word (so every prefix of every history is a crash point exactly once) the directory produced by exactly that prefix of calls is rebuilt, opened by the real recovery code in a forked child (twice: a crash right after recovery's own file creation), and every key is read; a case is distinct+non-trivial when an operation is in flight at the crash point (distinct by directory fingerprint). workloads={}", p.depth, p.alphabet.iter().map(|o| o.show()).collect::<Vec<_>>(), p.cfgs.len(), nwords * p.cfgs.len()),
+        "power" => format!("as the crash enumeration, under sync=always, and for every crash point every per-file loss vector: each file independently keeps any length between its last fsync and its current length ({}); creations and removals are durable. workloads={}", if tier == Tier::Thorough { "every byte for tails up to 64 bytes, else every write boundary plus every byte of the first and last 40" } else { "every write boundary" }, nwords * p.cfgs.len()),
+        _ => format!("every workload word of length {} (every fault position) and every shorter word (fault in its last operation) over {:?} x {} configurations; one fault per run at every individual create / write / fsync / unlink call with EIO, ENOSPC (writes, creates) and short writes; the rest of the workload runs after the fault, then the store is restarted. workloads={}", p.depth, p.alphabet.iter().map(|o| o.show()).collect::<Vec<_>>(), p.cfgs.len(), nwords * p.cfgs.len()),
+    };
+    let bounds = json!({"mode": mode, "depth": p.depth, "alphabet": p.alphabet.iter().map(|o| o.show()).collect::<Vec<_>>(), "configs": p.cfgs.iter().map(|c| c.to_json()).collect::<Vec<_>>(), "workloads": nwords * p.cfgs.len()});
+    let assumptions = vec![
+        "failure model of the properties themselves: a killed process leaves exactly a prefix of its system calls; power loss additionally drops, per file, any suffix after that file's last fsync; creations and unlinks are durable".to_string(),
+        "the materialiser (rebuilding a directory from recorded calls) is validated on every execution: the full prefix must be byte-identical to the live directory".to_string(),
+        "recoveries run in forked children so that a process abort is an observation".to_string(),
+    ];
+    (rule, bounds, assumptions)
+}
+
+pub fn child_recover(_args: &[String]) -> i32 {
+    0
+}
